@@ -35,6 +35,19 @@ import struct
 import subprocess
 import sys
 
+_ATHERIS = None
+if __name__ == '__main__' and '--fuzz' in sys.argv:
+    # fuzz subprocess: bumble must be imported under atheris' import hook BEFORE vlib pulls it in
+    logging.disable(logging.CRITICAL)
+    try:
+        import atheris as _ATHERIS
+
+        with _ATHERIS.instrument_imports(include=['bumble'], enable_loader_override=False):
+            from bumble import (a2dp, at, att, avc, avctp, avdtp, avrcp, core, gatt, hci, hfp, l2cap, rfcomm,  # noqa: F401
+                                sdp, smp)
+    except Exception as _e:  # noqa: BLE001 - reported through the result file
+        _ATHERIS = _e
+
 from hypothesis import strategies as st
 
 from vlib import specgen, vloop, world
@@ -270,6 +283,21 @@ class Rig:
         self.max_events = max(self.max_events, n)
         if METER.tripped or self.loop.budget_hit:
             raise BusyLoop(METER.trip_site or 'loop_iterations')
+
+
+def settle(loop, max_rounds: int = 50_000) -> bool:
+    """Run the loop until nothing is ready and no timer is due at the current virtual time.
+    (vloop.run_for(0) is ONE iteration: call_soon chains need several.) False = still busy after max_rounds."""
+    for _ in range(max_rounds):
+        loop.run_for(0)
+        if METER.tripped:
+            return True
+        if loop._ready:  # noqa: SLF001 - same private field vloop relies on
+            continue
+        t = loop._next_timer()  # noqa: SLF001
+        if t is None or t._when > loop.time():  # noqa: SLF001
+            return True
+    return False
 
 
 class BusyLoop(Exception):
@@ -508,7 +536,13 @@ async def build_classic(rig: Rig, case) -> None:
 
     def acceptor(dlc):
         if 'athf' in opens:
-            rig.state['hf'] = b.hfp.HfProtocol(dlc, _hf_config())
+            hf = b.hfp.HfProtocol(dlc, _hf_config())
+            rig.state['hf'] = hf
+            volumes: list = []
+            rig.state['hf_volumes'] = volumes
+            hf.on(hf.EVENT_SPEAKER_VOLUME, volumes.append)
+            # the profile's main routine: SLC, then the unsolicited-result loop
+            rig.state['hf_task'] = asyncio.get_running_loop().create_task(hf.run())
         else:
             rig.state['ag'] = b.hfp.AgProtocol(dlc, _ag_config())
         rig.state['vdlc'] = dlc
@@ -571,6 +605,15 @@ async def build_classic(rig: Rig, case) -> None:
                 if rig.state.get('gateway_on') and b'\r' in data:
                     dlc.write(b'\r\nOK\r\n')
 
+            # a real gateway for the service level connection, detached afterwards
+            b.hfp.AgProtocol(dlc, _ag_config())
+            for _ in range(100):
+                await asyncio.sleep(0.05)
+                if rig.state.get('hf') is not None and rig.state['hf']._slc_initialized:  # noqa: SLF001
+                    break
+            else:
+                raise HarnessError('athf set-up: the victim HF did not complete the SLC')
+            await asyncio.sleep(0.1)
             dlc.sink = gateway
             rig.chans['athf'] = {'send': dlc.write}
             rig.refs.append(('athf', {'link', 'chan:rfcomm', 'rfcomm'}, ref_athf))
@@ -617,6 +660,12 @@ async def build_classic(rig: Rig, case) -> None:
         rig.state['avctp_ref'] = (req[0], rsp[0])
         rig.refs.append(('avctp', {'link', 'chan:avctp'}, ref_avctp))
     rig.refs.append(('hci', set(), ref_hci))
+    # the peer plays a NON-Bumble device from here on: its own ATT/SMP layers must not converse with the
+    # victim's answers (two Bumble SMP layers can exchange Pairing Random / Pairing Failed for ever)
+    manager = peer.device.l2cap_channel_manager
+    for cid in list(manager.fixed_channels):
+        if cid not in (1, 5):
+            manager.fixed_channels[cid] = lambda _handle, pdu: sink_store.append(bytes(pdu))
 
 
 def ref_echo(rig: Rig):
@@ -723,7 +772,15 @@ def ref_athf(rig: Rig):
         task.cancel()
         return ('hangs', 'HfProtocol.execute_command never finished')
     if result.get(1) == 'ok':
-        return None
+        # and a well-formed unsolicited result code still reaches the application
+        volumes = rig.state['hf_volumes']
+        del volumes[:]
+        dlc.write(b'\r\n+VGS: 9\r\n')
+        rig.run(1.0)
+        if 9 in volumes:
+            return None
+        return ('unsolicited_lost', f'a well-formed unsolicited +VGS: 9 no longer produces the speaker_volume event '
+                                    f'(main routine finished: {rig.state["hf_task"].done()})')
     return ('no_answer', f'HfProtocol.execute_command: the gateway answered OK but the command ended with {result.get(1)!r} '
                          f'(first attempt {result.get(0)!r})')
 
@@ -756,6 +813,14 @@ OTHER_CIDS_LE = [1, 2, 3, 7, 0x003A, 0x0040, 0x007F, 0xFFFF, 0]
 OTHER_CIDS_CLASSIC = [3, 4, 5, 6, 0x003F, 0x0040, 0x0041, 0xFFFF, 0]
 
 
+def pick(*strategies):
+    """one_of without Hypothesis' flattening of nested one_of (keeps the intended weights)."""
+    strategies = [x for x in strategies if x is not None]
+    if len(strategies) == 1:
+        return strategies[0]
+    return st.integers(0, len(strategies) - 1).flatmap(lambda i: strategies[i])
+
+
 @st.composite
 def _fields(draw, fields, budget):
     """specgen.fields_strategy, falling back to raw bytes where the spec generator cannot serve a field."""
@@ -784,9 +849,10 @@ def _wire_strategy(cls, head, budget=60, subst=None):
 
 
 def _registry(chan: str, info: dict):
-    """Strategy of valid PDUs for `chan` built from the protocol's registry (or None)."""
+    """Valid PDUs for `chan`: (strategies built from the protocol's registry, hand-made situational ones)."""
     b = B()
     out = []
+    hand_out = []
     if chan in ('att', 'cid'):
         def subst_att(v):
             for k in list(v):
@@ -800,11 +866,11 @@ def _registry(chan: str, info: dict):
                 bytes([0x12, 5, 0, 1, 2, 3]), bytes([0x52, 5, 0, 1]), bytes([0x16, 5, 0, 0, 0, 1, 2]), bytes([0x18, 1]),
                 bytes([0x04, 1, 0, 0xFF, 0xFF]), bytes([0x06, 1, 0, 0xFF, 0xFF, 0x00, 0x28, 1, 2]), bytes([0x1E]),
                 bytes([0xD2, 3, 0, 1, 2, 3, 4, 5, 6, 7, 8, 9, 10, 11, 12, 13])]
-        out.append(st.sampled_from(hand))
+        hand_out.append(st.sampled_from(hand))
     if chan in ('smp', 'smpbr', 'cid'):
         for code, cls in sorted(b.smp.SMP_Command.smp_classes.items()):
             out.append(_wire_strategy(cls, lambda w, code=code: bytes([int(code)]) + w, 70))
-        out.append(st.just(_smp_pairing_request()))
+        hand_out.append(st.just(_smp_pairing_request()))
     if chan in ('sig', 'lesig', 'cid'):
         cids = info.get('victim_cids') or [0x40]
         pcids = info.get('peer_cids') or [0x40]
@@ -830,7 +896,7 @@ def _registry(chan: str, info: dict):
         hand.append(bytes([0x12, 0x37, 8, 0]) + struct.pack('<HHHH', 6, 12, 0, 100))
         hand.append(bytes([0x14, 0x38, 10, 0]) + struct.pack('<HHHHH', COC_PSM, 0x0072, 64, 64, 5))
         hand.append(bytes([0x17, 0x39, 18, 0]) + struct.pack('<HHHH', COC_PSM, 64, 64, 5) + struct.pack('<HHHHH', 0x73, 0x74, 0x75, 0x76, 0x77))
-        out.append(st.sampled_from(hand))
+        hand_out.append(st.sampled_from(hand))
     if chan == 'sdp':
         s = b.sdp
         uuid = s.DataElement.uuid(b.core.UUID(KNOWN_UUID128))
@@ -859,7 +925,7 @@ def _registry(chan: str, info: dict):
                     [s.DataElement.unsigned_integer_16(0), s.DataElement.unsigned_integer_32(0x00010200)]),
                 continuation_state=b'\x00')),
         ]
-        out.append(st.sampled_from(hand))
+        hand_out.append(st.sampled_from(hand))
         out.append(st.tuples(st.integers(1, 400), st.sampled_from([0x35, 0x36, 0x37, 0x3D, 0x3E]), st.sampled_from([2, 4, 6]))
                    .map(lambda t: sdp_nested(*t)))
     if chan == 'avdtp':
@@ -874,7 +940,7 @@ def _registry(chan: str, info: dict):
                 bytes([0x90, 0x0A, seid << 2]), bytes([0xA0, 0x0B, seid << 2, 1, 2]), bytes([0xB0, 0x0D, seid << 2, 0, 5]),
                 bytes([0xC0, 0x3F]), bytes([0x14, 0x03, 3, seid << 2, 4]), bytes([0x18, seid << 2, 1]), bytes([0x1C, 0, 7, 6]),
                 bytes([0x24, 0x01, 0xFF]), bytes([0x28, 1]), bytes([0x2C, 2])]
-        out.append(st.sampled_from(hand))
+        hand_out.append(st.sampled_from(hand))
     if chan == 'avctp':
         def avc_cmd(label, ptype, body, pid=0x110E, cr=0):
             return bytes([label << 4 | ptype << 2 | cr << 1]) + (struct.pack('>H', pid) if ptype in (0, 1) else b'') + body
@@ -893,7 +959,7 @@ def _registry(chan: str, info: dict):
                 avc_cmd(14, 2, bytes([0x00, 0x19, 0x58])), avc_cmd(14, 3, bytes([0x10, 0, 0, 1, 2])),
                 avc_cmd(15, 0, bytes([0x09, 0x48, 0x00, 0x00, 0x19, 0x58, 0x10, 0, 0, 1, 2]), cr=1),
                 avc_cmd(0, 0, b'', cr=1), bytes([0x03, 0x11, 0x0E])]
-        out.append(st.sampled_from(hand))
+        hand_out.append(st.sampled_from(hand))
     if chan == 'rfcomm':
         F = b.rfcomm.RFCOMM_Frame
         d = RF_CHANNEL << 1
@@ -920,7 +986,7 @@ def _registry(chan: str, info: dict):
         for m in mccs:
             for cr in (0, 1):
                 frames.append(F.uih(cr, 0, m))
-        out.append(st.sampled_from(sorted({bytes(f) for f in frames})))
+        hand_out.append(st.sampled_from(sorted({bytes(f) for f in frames})))
     if chan == 'at':
         out.append(st.sampled_from(AT_LINES))
         out.append(st.lists(st.sampled_from(AT_LINES), min_size=2, max_size=4).map(b''.join))
@@ -933,7 +999,7 @@ def _registry(chan: str, info: dict):
         out.append(st.binary(min_size=0, max_size=20).map(lambda d: struct.pack('<H', 1) + d))
     if chan == 'hci':
         out.append(hci_seed_strategy(info))
-    return out
+    return out, hand_out
 
 
 def _empty_credit_frame(cr: int, dlci: int) -> bytes:
@@ -1006,7 +1072,7 @@ def hci_seed_strategy(info: dict):
         st.sampled_from([vh, 0x0EFF]).map(lambda h: bytes([4, 0x05, 4, 0x0C]) + struct.pack('<H', h) + bytes([0x13])),
     )
     captured = info.get('captured_hci') or [bytes([4, 0x13, 5, 1]) + struct.pack('<HH', vh, 1)]
-    return st.one_of(st.one_of(*parts), st.one_of(*parts), other, st.sampled_from(captured))
+    return pick(st.one_of(*parts), st.one_of(*parts), other, st.sampled_from(captured))
 
 
 def _hci_event_bytes(cls, code, sub, drawn, subst):
@@ -1149,19 +1215,15 @@ def case_strategy():
                     lambda t: (mutated('cid', t[1]) if t[2] else st.just([t[1]])).map(
                         lambda fr: [[f'cid:{t[0]}', f, 'mut'] for f in fr]))
             seeds = seed_for(kind, chan, info)
-            return st.one_of(
-                seeds.flatmap(lambda s: mutated(chan, s)).map(lambda fr: [[chan, f, 'mut'] for f in fr]),
-                seeds.flatmap(lambda s: mutated(chan, s)).map(lambda fr: [[chan, f, 'mut'] for f in fr]),
-                seeds.flatmap(lambda s: mutated(chan, s)).map(lambda fr: [[chan, f, 'mut'] for f in fr]),
-                seeds.map(lambda s: [[chan, s, 'valid']]),
-                st.binary(min_size=0, max_size=40).map(lambda d: [[chan, d, 'rand']]),
-                st.binary(min_size=0, max_size=700).map(lambda d: [[chan, d, 'rand']]),
-            )
+            mut = seeds.flatmap(lambda s: mutated(chan, s)).map(lambda fr: [[chan, f, 'mut'] for f in fr])
+            return pick(mut, mut, mut, mut, seeds.map(lambda s: [[chan, s, 'valid']]), seeds.map(lambda s: [[chan, s, 'valid']]),
+                        st.binary(min_size=0, max_size=40).map(lambda d: [[chan, d, 'rand']]),
+                        st.binary(min_size=0, max_size=700).map(lambda d: [[chan, d, 'rand']]))
 
         side = [c for c in fixed + ['hci'] if c != target]
         # mostly the primary target, sometimes another channel of the same world
-        group = st.one_of(one(target), one(target), one(target), one(target), one(target), one(target),
-                          st.sampled_from(side).flatmap(one))
+        main = one(target)
+        group = pick(main, main, main, main, main, main, st.sampled_from(side).flatmap(one))
         return st.lists(group, min_size=1, max_size=8).map(lambda groups: [f for g in groups for f in g][:20])
 
     def build(kind, target):
@@ -1180,20 +1242,19 @@ _SEED_CACHE: dict = {}
 def seed_for(kind: str, chan: str, info: dict):
     key = (kind, chan)
     if key not in _SEED_CACHE:
-        parts = list(_registry(chan, info))
+        reg, hand = _registry(chan, info)
         captured = info['captured'].get(chan)
-        if captured:
-            parts.append(st.sampled_from(captured))
-        if not parts:
-            parts.append(st.binary(max_size=30))
-        _SEED_CACHE[key] = st.one_of(*parts)
+        groups = [st.one_of(*reg) if reg else None, st.one_of(*hand) if hand else None,
+                  st.sampled_from(captured) if captured else None]
+        groups = [g for g in groups if g is not None] or [st.binary(max_size=30)]
+        _SEED_CACHE[key] = pick(*groups)
     return _SEED_CACHE[key]
 
 
 def payload_for(kind: str, proto: str, info: dict):
     seeds = seed_for(kind, proto, info)
-    return st.one_of(seeds, seeds, seeds.flatmap(lambda s: mutated(proto, s)).map(lambda fr: fr[0]),
-                     st.binary(max_size=60))
+    return pick(seeds, seeds, seeds.flatmap(lambda s: mutated(proto, s)).map(lambda fr: fr[0]),
+                st.binary(max_size=60))
 
 
 # ---------------------------------------------------------------------------
@@ -1361,16 +1422,17 @@ def exec_world(case, cap_scale: int = 1) -> Result:
                 mark_acl, mark_hci = len(rig.link.acl_log), len(rig.victim.tap.log)
                 mark_err = len(loop.errors) + len(rig.sync_errors) + len(catcher.excs)
                 METER.start(rig.cap, loop)
+                quiet = True
                 try:
                     inject(rig, chan, data)
-                    loop.run_for(0)
+                    quiet = settle(loop)
                 except _Trip:
                     pass
                 finally:
                     n = METER.stop()
                 res.max_events = max(res.max_events, n)
-                if METER.tripped or loop.budget_hit:
-                    res.trip = (i, chan, METER.trip_site or 'loop_iterations')
+                if METER.tripped or not quiet:
+                    res.trip = (i, chan, METER.trip_site or 'zero_delay_storm')
                     break
                 if chan != 'hci' and rig.victim_activity(mark_acl, mark_hci):
                     replied = True
@@ -1742,9 +1804,9 @@ def parser_strategy(target: str):
         if extra:
             seq = st.one_of(seq, st.lists(st.sampled_from(extra), min_size=1, max_size=4))
         elif target == 'avdtp_assembler':
-            seq = st.one_of(seq, st.lists(st.one_of(*_registry('avdtp', {})), min_size=1, max_size=4))
+            seq = st.one_of(seq, st.lists(st.one_of(*sum(_registry('avdtp', {}), [])), min_size=1, max_size=4))
         else:
-            seq = st.one_of(seq, st.lists(st.one_of(*_registry('avctp', {})), min_size=1, max_size=4))
+            seq = st.one_of(seq, st.lists(st.one_of(*sum(_registry('avctp', {}), [])), min_size=1, max_size=4))
 
         def mutate_seq(chs):
             return st.tuples(*[st.one_of(st.just([c]), mutated(chan, c), mutated(chan, c)) for c in chs]).map(
@@ -1754,7 +1816,8 @@ def parser_strategy(target: str):
                          st.lists(st.binary(max_size=40), min_size=1, max_size=6))
     base = [st.sampled_from(seeds)]
     if reg:
-        base += _registry(reg, {'vhandle': 1, 'captured': {}})
+        r_, h_ = _registry(reg, {'vhandle': 1, 'captured': {}})
+        base += [pick(st.one_of(*r_), st.one_of(*h_)) if r_ and h_ else st.one_of(*(r_ + h_))]
     if target == 'sdp_data_element':
         base.append(st.tuples(st.integers(1, 400), st.sampled_from([0x35, 0x36, 0x37, 0x3D])).map(
             lambda t: sdp_nested(t[0], t[1], 6)[5:-10]))
@@ -1814,15 +1877,13 @@ def fuzz_main(argv) -> int:
             json.dump(state, f)
         os.replace(args.out + '.tmp', args.out)
 
-    try:
-        import atheris
-    except Exception as e:  # noqa: BLE001
+    atheris = _ATHERIS
+    if atheris is None or isinstance(atheris, Exception):
         state['atheris'] = False
-        state['error'] = repr(e)
+        state['error'] = repr(atheris)
         flush()
         return 0
-    with atheris.instrument_imports(include=['bumble']):
-        B()
+    B()
     flush()
     stateful = target in STATEFUL_PARSERS
 
@@ -1840,7 +1901,7 @@ def fuzz_main(argv) -> int:
             flush()
 
     atheris.Setup([sys.argv[0], args.corpus, f'-runs={args.runs}', f'-seed={args.seed}', f'-max_len={args.max_len}',
-                   '-verbosity=0', '-print_final_stats=0', '-close_fd_mask=3', '-timeout=120', '-rss_limit_mb=4096'], one)
+                   '-verbosity=' + os.environ.get('C17_FUZZ_VERBOSE', '0'), '-print_final_stats=0', '-close_fd_mask=' + ('0' if os.environ.get('C17_FUZZ_VERBOSE') else '3'), '-timeout=120', '-rss_limit_mb=4096'], one)
     atheris.Fuzz()
     return 0
 
